@@ -54,6 +54,14 @@ def gen_noise(rng: random.Random) -> dict:
         m[rng.randrange(d), rng.randrange(d)] = 1.0
         p["eff_noise_rates"] = [G.pick(rng, [0.01, 0.2])]
         p["eff_noise_opers"] = [m.tolist()]
+        if rng.random() < 0.5:
+            # several operators, two of them at the SAME rate (a rate is not a key)
+            for _ in range(rng.randint(1, 2)):
+                m2 = np.zeros((d, d))
+                m2[rng.randrange(d), rng.randrange(d)] = 1.0
+                if m2.tolist() not in p["eff_noise_opers"]:
+                    p["eff_noise_opers"].append(m2.tolist())
+                    p["eff_noise_rates"].append(G.pick(rng, [p["eff_noise_rates"][0], p["eff_noise_rates"][0], 0.07]))
         if d == 3:
             p["with_leakage"] = True
             for k in ("dephasing_rate", "hyperfine_dephasing_rate", "depolarizing_rate"):
